@@ -60,8 +60,7 @@ fn go(cx: &Ctx, m: &MNode, d: &DumpNode, path: &mut Vec<usize>, st: St) -> Resul
             if probs_d.len() != outs.len() {
                 return Err(format!("chance infoset {infoset} has {} probabilities, node has {} outcomes", probs_d.len(), outs.len()));
             }
-            let tot: f64 = outs.iter().map(|(_, w, _)| *w).sum();
-            let probs_m: Vec<f64> = outs.iter().map(|(_, w, _)| *w / tot).collect();
+            let probs_m: Vec<f64> = crate::model::normalised(&outs.iter().map(|(_, w, _)| *w).collect::<Vec<_>>());
             // partition
             let key = match info {
                 Some(n) => ChanceKey::Named(n.clone()),
